@@ -209,9 +209,9 @@ Qed.
 
 (** ** Extended Euclid / mod_inverse *)
 Lemma egcd_spec g n : forall fuel r0 r1 t0 t1 d t,
-  (t0 * g - r0) mod n = 0 -> (t1 * g - r1) mod n = 0 ->
+  (n | t0 * g - r0) -> (n | t1 * g - r1) ->
   egcd fuel r0 r1 t0 t1 = Some (d, t) ->
-  (t * g - d) mod n = 0 /\ Z.gcd r0 r1 = Z.gcd d 0.
+  (n | t * g - d) /\ Z.gcd r0 r1 = Z.gcd d 0.
 Proof.
   induction fuel as [|f IH]; intros r0 r1 t0 t1 d t H0 H1 E; [discriminate|].
   cbn [egcd] in E. destruct (r1 =? 0) eqn:Ez.
@@ -219,10 +219,145 @@ Proof.
   - apply Z.eqb_neq in Ez.
     apply IH in E; [|exact H1|].
     + destruct E as [E1 E2]. split; [exact E1|]. rewrite <- E2.
-      rewrite (Z.gcd_comm r1). replace (r0 - r0 / r1 * r1) with (r0 + (- (r0 / r1)) * r1) by lia.
-      rewrite Z.gcd_comm. rewrite Z.gcd_add_mult_diag_r. apply Z.gcd_comm.
+      replace (r0 - r0 / r1 * r1) with (r0 + (- (r0 / r1)) * r1) by lia.
+      rewrite Z.gcd_add_mult_diag_r. apply Z.gcd_comm.
     + replace ((t0 - r0 / r1 * t1) * g - (r0 - r0 / r1 * r1))
         with ((t0 * g - r0) + (- (r0 / r1)) * (t1 * g - r1)) by lia.
-      rewrite Zplus_mod, Zmult_mod, H0, H1. rewrite Z.mul_0_r. cbn. rewrite Z.mod_0_l, Z.mod_0_l; auto.
-      all: destruct (Z.eq_dec n 0) as [->|]; auto.
+      apply Z.divide_add_r; [exact H0|]. apply Z.divide_mul_r. exact H1.
+Qed.
+
+(** the product r0 * r1 at least halves in every step, so a fuel of log2(r0 * r1) + 2 suffices *)
+Lemma egcd_fuel : forall fuel r0 r1 t0 t1,
+  0 <= r1 <= r0 -> r0 * r1 < 2 ^ Z.of_nat fuel ->
+  egcd (S fuel) r0 r1 t0 t1 <> None.
+Proof.
+  induction fuel as [|f IH]; intros r0 r1 t0 t1 Hr Hp.
+  - cbn [egcd]. destruct (r1 =? 0) eqn:Ez; [discriminate|].
+    apply Z.eqb_neq in Ez. cbn in Hp. nia.
+  - cbn [egcd]. destruct (r1 =? 0) eqn:Ez; [discriminate|].
+    apply Z.eqb_neq in Ez. fold (egcd (S f)).
+    assert (Hr1 : 0 < r1) by lia.
+    pose proof (Z.mod_pos_bound r0 r1 Hr1) as Hm.
+    pose proof (Z.div_mod r0 r1 ltac:(lia)) as Hd.
+    assert (Hq : 1 <= r0 / r1) by (apply Z.div_le_lower_bound; lia).
+    replace (r0 - r0 / r1 * r1) with (r0 mod r1) by lia.
+    apply IH; [lia|].
+    rewrite Nat2Z.inj_succ, Z.pow_succ_r in Hp by lia.
+    assert (2 * (r1 * (r0 mod r1)) <= r0 * r1) by nia. lia.
+Qed.
+
+Lemma mod_inverse_sound g n v : 0 < n -> mod_inverse g n = Some v ->
+  0 <= v < n /\ (v * g) mod n = 1 mod n.
+Proof.
+  intros Hn. unfold mod_inverse.
+  destruct (egcd _ n (g mod n) 0 1) as [[d t]|] eqn:E; [|discriminate].
+  destruct (d =? 1) eqn:Ed; [|discriminate]. apply Z.eqb_eq in Ed. subst d.
+  intros Ev. inversion Ev; subst v. split; [apply Z.mod_pos_bound; exact Hn|].
+  apply egcd_spec with (g := g) (n := n) in E.
+  - destruct E as [[k E] _]. rewrite Zmult_mod_idemp_l.
+    replace (t * g) with (1 + k * n) by lia. rewrite Z_mod_plus_full. reflexivity.
+  - exists (-1). lia.
+  - exists (g / n). pose proof (Z.div_mod g n ltac:(lia)). lia.
+Qed.
+
+Lemma mod_inverse_complete g n : 1 < n -> Z.gcd g n = 1 -> exists v, mod_inverse g n = Some v.
+Proof.
+  intros Hn Hg. unfold mod_inverse.
+  pose proof (Z.mod_pos_bound g n ltac:(lia)) as Hm.
+  destruct (egcd _ n (g mod n) 0 1) as [[d t]|] eqn:E.
+  - pose proof E as E'. apply egcd_spec with (g := g) (n := n) in E'.
+    + destruct E' as [_ E2]. rewrite Z.gcd_0_r in E2.
+      rewrite Z.gcd_comm, Z.gcd_mod, Z.gcd_comm in E2 by lia. rewrite Hg in E2.
+      assert (Hd : d = 1 \/ d = -1) by lia. destruct Hd as [-> | ->].
+      * cbn. eauto.
+      * (* the gcd computed by the iteration is non-negative *)
+        exfalso. revert E. clear -Hn Hm.
+        assert (G : forall fuel r0 r1 t0 t1 d' t', 0 <= r1 -> 0 <= r0 -> egcd fuel r0 r1 t0 t1 = Some (d', t') -> 0 <= d').
+        { induction fuel as [|f IH]; intros r0 r1 t0 t1 d' t' H1 H0 E; [discriminate|].
+          cbn [egcd] in E. destruct (r1 =? 0) eqn:Ez.
+          - inversion E; subst; exact H0.
+          - apply Z.eqb_neq in Ez. apply IH in E; [exact E| |exact H1].
+            replace (r0 - r0 / r1 * r1) with (r0 mod r1) by (pose proof (Z.div_mod r0 r1 ltac:(lia)); lia).
+            apply Z.mod_pos_bound. lia. }
+        intros E. apply G in E; lia.
+    + exists (-1). lia.
+    + exists (g / n). pose proof (Z.div_mod g n ltac:(lia)). lia.
+  - exfalso. revert E.
+    replace (2 * Z.to_nat (Z.log2 n + 1) + 2)%nat with (S (2 * Z.to_nat (Z.log2 n + 1) + 1))%nat by lia.
+    apply egcd_fuel; [lia|].
+    pose proof (Z.log2_spec n ltac:(lia)) as [_ Hu].
+    pose proof (Z.log2_nonneg n) as Hl.
+    replace (Z.of_nat (2 * Z.to_nat (Z.log2 n + 1) + 1)) with (Z.succ (Z.log2 n) + Z.succ (Z.log2 n) + 1) by lia.
+    rewrite !Z.pow_add_r by lia.
+    assert (0 < 2 ^ Z.succ (Z.log2 n)) by (apply Z.pow_pos_nonneg; lia). nia.
+Qed.
+
+(** label_roundtrip: dividing by the label integer undoes the multiplication, for every message below n *)
+Lemma label_roundtrip m l n li : 0 < n -> 0 <= m < n -> mod_inverse l n = Some li ->
+  (((m * l) mod n) * li) mod n = m.
+Proof.
+  intros Hn Hm Hi. apply mod_inverse_sound in Hi; [|exact Hn]. destruct Hi as [_ Hi].
+  rewrite Zmult_mod_idemp_l.
+  replace (m * l * li) with (m * (li * l)) by lia.
+  rewrite <- Zmult_mod_idemp_r, Hi, Zmult_mod_idemp_r, Z.mul_1_r. apply Z.mod_small. exact Hm.
+Qed.
+
+(** label_no_wrap: a 32-byte message times a 32-byte label integer never reaches a modulus of >= 2^512 *)
+Lemma label_no_wrap m l n : 0 <= m < 2 ^ 256 -> 0 <= l < 2 ^ 256 -> 2 ^ 512 <= n -> 0 <= m * l < n.
+Proof.
+  intros Hm Hl Hn. replace (2 ^ 512) with (2 ^ 256 * 2 ^ 256) in Hn by reflexivity. nia.
+Qed.
+
+(** ** Scalar encodings: the laws the proofs use, and the two instances *)
+Record repr_laws (q : Z) (repr : Z -> list N) (from_repr : list N -> option Z) : Prop := {
+  rl_len : forall s, length (repr s) = SCALAR_SIZE;
+  rl_bytes : forall s, bytes_ok (repr s) = true;
+  rl_from_repr : forall s, 0 <= s < q -> from_repr (repr s) = Some s;
+  rl_canon : forall b s, bytes_ok b = true -> from_repr b = Some s -> repr s = b /\ 0 <= s < q;
+  rl_width : forall b s, from_repr b = Some s -> length b = SCALAR_SIZE;
+}.
+
+Lemma repr_be_laws q : 0 < q <= 2 ^ 256 -> repr_laws q repr_be (from_repr_be q).
+Proof.
+  intros Hq. constructor.
+  - intros s. apply length_to_be.
+  - intros s. apply bytes_ok_to_be.
+  - intros s Hs. unfold from_repr_be, repr_be. rewrite length_to_be, Nat.eqb_refl.
+    rewrite of_be_to_be. rewrite N.mod_small.
+    + rewrite Z2N.id by lia. destruct (s <? q) eqn:E; [reflexivity|apply Z.ltb_ge in E; lia].
+    + assert (E : Z.of_N (p256 SCALAR_SIZE) = 2 ^ 256) by (rewrite p256_Z; reflexivity). lia.
+  - intros b s Hb. unfold from_repr_be, repr_be.
+    destruct (length b =? SCALAR_SIZE)%nat eqn:El; [|discriminate]. apply Nat.eqb_eq in El.
+    destruct (Z.of_N (of_be b) <? q) eqn:E; [|discriminate]. apply Z.ltb_lt in E.
+    intros Es. inversion Es; subst s. rewrite N2Z.id. split; [|lia].
+    rewrite <- El. apply to_be_of_be. exact Hb.
+  - intros b s. unfold from_repr_be.
+    destruct (length b =? SCALAR_SIZE)%nat eqn:El; [|discriminate]. apply Nat.eqb_eq in El. auto.
+Qed.
+
+Lemma repr_le_laws q : 0 < q <= 2 ^ 256 -> repr_laws q repr_le (from_repr_le q).
+Proof.
+  intros Hq. constructor.
+  - intros s. apply length_to_le.
+  - intros s. apply bytes_ok_to_le.
+  - intros s Hs. unfold from_repr_le, repr_le. rewrite length_to_le, Nat.eqb_refl.
+    rewrite of_le_to_le. rewrite N.mod_small.
+    + rewrite Z2N.id by lia. destruct (s <? q) eqn:E; [reflexivity|apply Z.ltb_ge in E; lia].
+    + assert (E : Z.of_N (p256 SCALAR_SIZE) = 2 ^ 256) by (rewrite p256_Z; reflexivity). lia.
+  - intros b s Hb. unfold from_repr_le, repr_le.
+    destruct (length b =? SCALAR_SIZE)%nat eqn:El; [|discriminate]. apply Nat.eqb_eq in El.
+    destruct (Z.of_N (of_le b) <? q) eqn:E; [|discriminate]. apply Z.ltb_lt in E.
+    intros Es. inversion Es; subst s. rewrite N2Z.id. split; [|lia].
+    rewrite <- El. apply to_le_of_le. exact Hb.
+  - intros b s. unfold from_repr_le.
+    destruct (length b =? SCALAR_SIZE)%nat eqn:El; [|discriminate]. apply Nat.eqb_eq in El. auto.
+Qed.
+
+(** lower bound on the byte length (a modulus of at least 2^592 has at least 75 bytes) *)
+Lemma byte_len_ge v k : 256 ^ Z.of_nat k <= v -> (k + 1 <= byte_len v)%nat.
+Proof.
+  intros Hv. assert (H0 : 0 <= v) by (pose proof (Z.pow_nonneg 256 (Z.of_nat k)); lia).
+  pose proof (byte_len_bound v H0) as B.
+  destruct (le_lt_dec (k + 1) (byte_len v)) as [|Hlt]; [assumption|exfalso].
+  assert (256 ^ Z.of_nat (byte_len v) <= 256 ^ Z.of_nat k) by (apply Z.pow_le_mono_r; lia). lia.
 Qed.
